@@ -14,10 +14,11 @@
 (*                                                                              *)
 (* S  = [desc, sd, query, mutation, subscription, types, dirs]                  *)
 (*        sd = the SDL carries an explicit `schema {..}` definition; ""=absent  *)
-(* T  = [name, kind, desc, fields, ifaces, members, values, inputs, url]        *)
+(* T  = [name, kind, desc, fields, ifaces, members, values, inputs, url, tags]  *)
 (* F  = [name, desc, type, args, dep, tags]     tags = applied custom directives*)
-(* IV = [name, desc, type, def, dep]            arguments and input fields      *)
-(* EV = [name, desc, dep]                                                       *)
+(* IV = [name, desc, type, def, dep, tags]      arguments and input fields      *)
+(* EV = [name, desc, dep, tags]                 (tags: type-system directive    *)
+(*      applications; invisible to introspection, must not disturb it)          *)
 (* D  = [name, desc, locs, rep, args]                                           *)
 (* Ref= [name, w]   w = wrappers outermost first, "L" list / "N" non-null:       *)
 (*                  [[T!]]!  =  [name |-> "T", w |-> <<"N","L","L","N">>]         *)
@@ -42,11 +43,11 @@ NullVal == [t |-> "n"]
 NoDep == [d |-> FALSE, hr |-> FALSE, r |-> ""]
 DefaultReason == "No longer supported"
 Ref(nm, w) == [name |-> nm, w |-> w]
-InputVal(nm, ref, def) == [name |-> nm, desc |-> "", type |-> ref, def |-> def, dep |-> NoDep]
+InputVal(nm, ref, def) == [name |-> nm, desc |-> "", type |-> ref, def |-> def, dep |-> NoDep, tags |-> <<>>]
 Field(nm, ref) == [name |-> nm, desc |-> "", type |-> ref, args |-> <<>>, dep |-> NoDep, tags |-> <<>>]
-EnumVal(nm) == [name |-> nm, desc |-> "", dep |-> NoDep]
+EnumVal(nm) == [name |-> nm, desc |-> "", dep |-> NoDep, tags |-> <<>>]
 TypeDef(nm, kind) == [name |-> nm, kind |-> kind, desc |-> "", fields |-> <<>>, ifaces |-> <<>>,
-                      members |-> <<>>, values |-> <<>>, inputs |-> <<>>, url |-> ""]
+                      members |-> <<>>, values |-> <<>>, inputs |-> <<>>, url |-> "", tags |-> <<>>]
 DirDef(nm, locs, rep) == [name |-> nm, desc |-> "", locs |-> locs, rep |-> rep, args |-> <<>>]
 
 \* ------------------------------------------------------------------ built-ins
@@ -173,10 +174,17 @@ SubW(S, an, aw, bn, bw) ==
           \/ KindOf(S, bn) = "INTERFACE" /\ Has(S.types, an) /\ bn \in Range(Find(S.types, an).ifaces)
 IsSubRef(S, a, b) == SubW(S, a.name, a.w, b.name, b.w)
 
-InputValsOK(S, ivs) ==
+\* applied custom directives: defined, allowed at this location, not repeated unless repeatable
+TagsOK(S, tags, loc) ==
+  /\ \A g \in DOMAIN tags : Has(S.dirs, tags[g]) /\ loc \in Range(Find(S.dirs, tags[g]).locs)
+  /\ \A g, h \in DOMAIN tags : (g # h /\ tags[g] = tags[h]) => Find(S.dirs, tags[g]).rep
+KindLoc(kind) == kind   \* the directive location of a type definition is spelled like its kind
+
+InputValsOK(S, ivs, loc) ==
   /\ NoDup(NameSeq(ivs))
   /\ \A i \in DOMAIN ivs :
        LET iv == ivs[i] IN
+       /\ TagsOK(S, iv.tags, loc)
        /\ ValidWrap(iv.type.w)
        /\ KindOf(S, iv.type.name) \in InputKinds
        /\ iv.def.t # "x" => ValOK(S, iv.type, iv.def)
@@ -201,10 +209,8 @@ TypeOK(S, t) ==
          /\ \A i \in DOMAIN t.fields :
               /\ ValidWrap(t.fields[i].type.w)
               /\ KindOf(S, t.fields[i].type.name) \in OutputKinds
-              /\ InputValsOK(S, t.fields[i].args)
-              /\ \A g \in DOMAIN t.fields[i].tags :
-                   /\ Has(S.dirs, t.fields[i].tags[g])
-                   /\ "FIELD_DEFINITION" \in Range(Find(S.dirs, t.fields[i].tags[g]).locs)
+              /\ InputValsOK(S, t.fields[i].args, "ARGUMENT_DEFINITION")
+              /\ TagsOK(S, t.fields[i].tags, "FIELD_DEFINITION")
          /\ NoDup(t.ifaces)
          /\ \A i \in DOMAIN t.ifaces : ImplOK(S, t, t.ifaces[i])
          /\ Len(t.members) = 0 /\ Len(t.values) = 0 /\ Len(t.inputs) = 0 /\ t.url = ""
@@ -214,10 +220,11 @@ TypeOK(S, t) ==
          /\ Len(t.fields) = 0 /\ Len(t.ifaces) = 0 /\ Len(t.values) = 0 /\ Len(t.inputs) = 0 /\ t.url = ""
     [] t.kind = "ENUM" ->
          /\ Len(t.values) > 0 /\ NoDup(NameSeq(t.values))
+         /\ \A i \in DOMAIN t.values : TagsOK(S, t.values[i].tags, "ENUM_VALUE")
          /\ NameSet(t.values) \cap {"true", "false", "null"} = {}
          /\ Len(t.fields) = 0 /\ Len(t.ifaces) = 0 /\ Len(t.members) = 0 /\ Len(t.inputs) = 0 /\ t.url = ""
     [] t.kind = "INPUT_OBJECT" ->
-         /\ Len(t.inputs) > 0 /\ InputValsOK(S, t.inputs)
+         /\ Len(t.inputs) > 0 /\ InputValsOK(S, t.inputs, "INPUT_FIELD_DEFINITION")
          \* no input object is reachable from itself through non-null, non-list fields (sufficient form)
          /\ \A i \in DOMAIN t.inputs : KindOf(S, t.inputs[i].type.name) = "INPUT_OBJECT" => t.inputs[i].type.w # <<"N">>
          /\ Len(t.fields) = 0 /\ Len(t.ifaces) = 0 /\ Len(t.members) = 0 /\ Len(t.values) = 0 /\ t.url = ""
@@ -228,7 +235,7 @@ TypeOK(S, t) ==
 DirOK(S, d) ==
   /\ d.name \notin BuiltinDirNames
   /\ Len(d.locs) > 0 /\ NoDup(d.locs) /\ Range(d.locs) \subseteq AllLocs
-  /\ InputValsOK(S, d.args)
+  /\ InputValsOK(S, d.args, "ARGUMENT_DEFINITION")
 
 WF(S) ==
   /\ NoDup(NameSeq(S.types))
@@ -241,7 +248,7 @@ WF(S) ==
   /\ ~S.sd => /\ S.desc = "" /\ S.query = "Query"
               /\ S.mutation = (IF Has(S.types, "Mutation") THEN "Mutation" ELSE "")
               /\ S.subscription = (IF Has(S.types, "Subscription") THEN "Subscription" ELSE "")
-  /\ \A i \in DOMAIN S.types : TypeOK(S, S.types[i])
+  /\ \A i \in DOMAIN S.types : TypeOK(S, S.types[i]) /\ TagsOK(S, S.types[i].tags, KindLoc(S.types[i].kind))
   /\ NoDup(NameSeq(S.dirs))
   /\ \A i \in DOMAIN S.dirs : DirOK(S, S.dirs[i])
 =============================================================================
